@@ -48,6 +48,7 @@ func c01Corpus(r *Run) []*pipeline.Case {
 			c.SameName = i%8 == 6
 			c.ForeignGoPackage = i%8 == 0
 			c.MixedCasePkg = i%8 == 2
+			c.PrefixTarget = i%8 == 4 && !c.SameName
 			c.HyphenPath = i%8 == 6 && !c.DottedPath
 			c.FullPathOverride = i%8 == 4 && !c.UseOverride
 			cases = append(cases, c)
